@@ -21,6 +21,7 @@ mod c12;
 mod recxof;
 mod prio3rec;
 mod c13;
+mod c16;
 mod c20;
 
 #[global_allocator]
@@ -37,6 +38,9 @@ fn main() {
     if std::env::var("CONFORM_PANIC_MSG").is_err() {
         std::panic::set_hook(Box::new(|_| {}));
     }
+    if let Ok(l) = std::env::var("CONFORM_ALLOC_LIMIT") {
+        c07::set_limit(l.parse().expect("CONFORM_ALLOC_LIMIT"));
+    }
     let rest = &args[2..];
     match (args[0].as_str(), args[1].as_str()) {
         ("c09", "replay") => c09::replay(stdin_lines()),
@@ -52,6 +56,7 @@ fn main() {
         ("c11", "xof") => c11::xof(rest, stdin_lines()),
         ("c07", "replay") => c07::replay(stdin_lines()),
         ("c07", "fuzz") => c07::fuzz(rest, stdin_lines()),
+        ("c16", "run") => c16::run(stdin_lines()),
         ("c12", "replay") => c12::replay(rest[0].parse().unwrap(), stdin_lines()),
         (p, m) => {
             eprintln!("unknown property/mode {p} {m}");
